@@ -19,7 +19,7 @@ def profile(big=False, cat=False, exclude=False, family='2d'):
                           fixtures=True)
     return ng.Profile(family='2d', standalone_bn=False, exclude=exclude, reuse=False,
                       multi_input=False, cat=cat, cat_t=False, max_blocks=6 if big else 4,
-                      min_blocks=1, max_c=6, fixtures=True)
+                      min_blocks=1, max_c=6, fixtures=True, dil2d=(1,))
 
 
 precisions = st.lists(st.sampled_from([2, 4, 8]), min_size=1, max_size=3, unique=True)
